@@ -16,7 +16,7 @@ from typing import Any, Dict, List, Optional, Tuple
 
 from ..cfg import cfg_of
 from ..consteval import ConstEval
-from ..flow import Sym, fpaths, attr_effects
+from ..flow import Sym, fpaths, attr_effects, allfacts
 from ..model import FuncInfo, attr_chain, norm, walk_no_nested, AnalysisError
 from ..report import Checker
 from .common import iteration_mutations
@@ -192,7 +192,7 @@ def run(ch: Checker) -> None:
             ch.paths += 1
             if p.exit_kind != 'return':
                 continue
-            facts = dict(p.facts())
+            facts = allfacts(p)
             if facts.get('self.flags.unix_socket_path', None) not in (unix, None):
                 continue
             sym = Sym(p)
@@ -298,7 +298,7 @@ def run(ch: Checker) -> None:
         if call_idx is None:
             bad2 = ('setup path that never writes the port file', p.describe())
             continue
-        unix_fact = dict(p.facts()).get('self.flags.unix_socket_path')
+        unix_fact = allfacts(p).get('self.flags.unix_socket_path')
         need = ['self.flags.ports'] + ([] if unix_fact else ['self.flags.port'])
         for nd in need:
             if nd not in stores or stores[nd] > call_idx:
@@ -329,8 +329,8 @@ def run(ch: Checker) -> None:
             if events.index('primary') > events.index('additional'):
                 order_ok = False
                 detail = 'an additional port is written before the primary port'
-        unix_fact = dict(p.facts()).get('self.flags.unix_socket_path')
-        if dict(p.facts()).get('self.flags.port_file') and unix_fact is False and 'primary' not in events:
+        unix_fact = allfacts(p).get('self.flags.unix_socket_path')
+        if allfacts(p).get('self.flags.port_file') and unix_fact is False and 'primary' not in events:
             order_ok = False
             detail = 'the primary port is not written on a TCP configuration'
     ch.check(order_ok and seen_any, 'C19.2', wpf, 'order', 'primary port first, then every additional port', detail or 'no path writes both primary and additional ports')
@@ -375,7 +375,7 @@ def run(ch: Checker) -> None:
                 continue
             called = any(isinstance(c, ast.Call) and isinstance(c.func, ast.Attribute) and c.func.attr == 'shutdown' and attr_chain(c.func.value) == sub
                          for i, st in p.stmts() for c in walk_no_nested(st))
-            f = dict(p.facts()).get(guard)
+            f = allfacts(p).get(guard)
             if f is True and not called:
                 okg = False
         ch.check(okg, 'C19.3', p_shutdown, 'guard of %s' % sub, '%s.shutdown() runs whenever %s holds' % (sub, guard),
